@@ -188,6 +188,7 @@ fn main() {
             0
         }
         "killchild" => crashx::kill_child_main(&args[2]),
+        "holder" => schedx::holder_main(&args[2]),
         "replay" => {
             let data = std::fs::read(&args[2]).expect("read replay file");
             let v: Value = serde_json::from_slice(&data).expect("replay json");
